@@ -205,6 +205,7 @@ class Pipeline:
         I = self.I
         add = I.add_model
         pl = self
+        I.len_hook = lambda I_, st, v: BV(module_len(I_, st, v), 'usize') if isinstance(v, Struct) and v.ty == 'enc:Module' else None
 
         # ---- parser / validator
         def m_parser_new(I, st, c, args, cont, depth, site):
@@ -384,6 +385,92 @@ class Pipeline:
         ENC2 = r'(wasm_encoder::(\w+Section|Module|NameMap|IndirectNameMap)|(Name|Producers|Code|Type|Import|Function|Table|Memory|Global|Export|Start|Element|DataCount|Data)Section|NameMap|IndirectNameMap)'
         add(r'^' + ENC2 + r'::(?!new\b)(\w+)(::<.*>)?$', m_enc_method, 'wasm_encoder builders: every method appends (method, arguments) to the record')
 
+        # ---- byte-level layout of the code section (contracts of wasm-encoder 0.214.0, see DESIGN.md C11)
+        def flen(k, n):
+            f = I.uf.get('flen')
+            if f is None:
+                f = z3.Function('flen', z3.BitVecSort(32), z3.BitVecSort(32), z3.BitVecSort(64))
+                I.uf['flen'] = f
+            return f(z3.BitVecVal(k, 32), z3.BitVecVal(n, 32))
+
+        def m_fn_new(I, st, c, args, cont, depth, site):
+            pl.nsink = getattr(pl, 'nsink', 0) + 1
+
+            def fin(st2, vals):
+                cont(st2, Struct('enc:Function', (VecVal([('new',) + tuple(vals)]), pl.nsink), ('entries', 'k')))
+            pl.snap_all(st, list(args), depth, fin)
+        add(r'^wasm_encoder::Function::new(::<.*>)?$', m_fn_new, 'wasm_encoder::Function::new(locals) = record', front=True)
+
+        def m_fn_instr(I, st, c, args, cont, depth, site):
+            cur = I.read_ref(st, args[0])
+            ins = pl.snap(st, args[1])
+            I.write_ref(st, args[0], Struct('enc:Function', (VecVal(cur.f[0].items + (('instruction', ins),)), cur.f[1]), ('entries', 'k')))
+            I.event(st, 'instruction', ins)
+            cont(st, args[0])
+        add(r'^wasm_encoder::Function::instruction$', m_fn_instr, 'wasm_encoder::Function::instruction = append to the record', front=True)
+
+        def m_fn_bytelen(I, st, c, args, cont, depth, site):
+            cur = I.read_ref(st, args[0])
+            n = sum(1 for e in cur.f[0].items if e[0] == 'instruction')
+            k_ = cur.f[1]
+            # contract: every instruction occupies at least one byte; bodies are smaller than 4 GiB
+            key = ('flen-axioms', k_, n)
+            if key not in st.meta:
+                st.meta[key] = True
+                st.pc.append(z3.ULT(flen(k_, n), z3.BitVecVal(1 << 32, 64)))
+                st.pc.append(z3.UGE(flen(k_, n), z3.BitVecVal(1, 64)))
+                if n > 0:
+                    st.pc.append(z3.UGT(flen(k_, n), flen(k_, n - 1)))
+            cont(st, BV(flen(k_, n), 'usize'))
+        add(r'^wasm_encoder::Function::byte_len$', m_fn_bytelen, 'wasm_encoder::Function::byte_len = flen(function, #instructions so far) [uninterpreted, strictly increasing in #instructions]', front=True)
+
+        def m_fn_encode(I, st, c, args, cont, depth, site):
+            cur = I.deref(st, args[0])
+            n = sum(1 for e in cur.f[0].items if e[0] == 'instruction')
+            L = flen(cur.f[1], n)
+            st.pc.append(z3.ULT(L, z3.BitVecVal(1 << 32, 64)))
+            st.pc.append(z3.UGE(L, z3.BitVecVal(1, 64)))
+            if n > 0:
+                st.pc.append(z3.UGT(L, flen(cur.f[1], n - 1)))
+            old = I.read_ref(st, args[1])
+            if not (isinstance(old, VecVal) and not old.items):
+                raise Inconclusive('Function::encode into a non-empty buffer')
+            I.write_ref(st, args[1], Struct('ByteBuf', (BV(leblen(L) + L, 'usize'), ('len-prefixed-function', cur)), ('len', 'what')))
+            cont(st, unit())
+        add(r'^<wasm_encoder::Function as (wasm_encoder::)?Encode>::encode$', m_fn_encode, 'Function::encode(sink) = LEB128(byte_len) ++ body', front=True)
+
+        def m_bytebuf_len(I, st, c, args, cont, depth, site):
+            try:
+                v = I.deref(st, args[0])
+            except Inconclusive:
+                return NotImplemented
+            if isinstance(v, Struct) and v.ty in ('ByteBuf', 'ByteSlice'):
+                return cont(st, v.get('len'))
+            if isinstance(v, Struct) and v.ty == 'enc:Module':
+                return cont(st, BV(module_len(I, st, v), 'usize'))
+            return NotImplemented
+        add(r'^(std::vec::)?Vec::<u8>::len$|^(core|std)::slice::<impl \[u8\]>::len$', m_bytebuf_len, 'len of an encoded buffer (symbolic layout)', front=True)
+
+        def m_bytebuf_index(I, st, c, args, cont, depth, site):
+            try:
+                v = I.deref(st, args[0])
+            except Inconclusive:
+                return NotImplemented
+            if not (isinstance(v, Struct) and v.ty == 'ByteBuf'):
+                return NotImplemented
+            start = args[1].f[0]
+            cont(st, I.halloc(st, Struct('ByteSlice', (BV(v.get('len').t - start.t, 'usize'), start, v.get('what')), ('len', 'start', 'what'))))
+        add(r'^<Vec<u8> as (std::ops::)?Index<(std::ops::)?RangeFrom<usize>>>::index$', m_bytebuf_index, 'buf[start..] on an encoded buffer', front=True)
+
+        def m_code_bytelen(I, st, c, args, cont, depth, site):
+            cur = I.deref(st, args[0])
+            cont(st, BV(code_bytes(cur), 'usize'))
+        add(r'^(wasm_encoder::)?CodeSection::byte_len$', m_code_bytelen, 'CodeSection::byte_len = sum over raw entries of LEB128(len)+len', front=True)
+
+        def m_as_slice(I, st, c, args, cont, depth, site):
+            cont(st, args[0])
+        add(r'^wasm_encoder::Module::as_slice$', m_as_slice, 'wasm_encoder::Module::as_slice (length tracked symbolically)', front=True)
+
         def m_enc_finish(I, st, c, args, cont, depth, site):
             cont(st, I.read_ref(st, args[0]) if isinstance(args[0], Ref) else args[0])
         add(r'^wasm_encoder::Module::(finish|as_slice)$', m_enc_finish, 'wasm_encoder::Module::finish = the recorded module', front=True)
@@ -476,6 +563,46 @@ class Pipeline:
         outs = []
         I.run(emit, [mref], st, lambda s, v: outs.append((s, v, mref)))
         return outs
+
+
+def leblen(t):
+    """length of the unsigned LEB128 encoding of a 64-bit term (reference definition used by the layout contracts)"""
+    w = t.size()
+    r = z3.BitVecVal(10 if w == 64 else 5, w)
+    for k in range(9 if w == 64 else 4, 0, -1):
+        r = z3.If(z3.ULT(t, z3.BitVecVal(1 << (7 * k), w)), z3.BitVecVal(k, w), r)
+    return r
+
+
+def code_bytes(sec):
+    tot = z3.BitVecVal(0, 64)
+    for e in sec.f[0].items:
+        if e[0] == 'raw':
+            ln = e[1].get('len').t
+            tot = tot + leblen(ln) + ln
+        elif e[0] != 'new':
+            raise Inconclusive('CodeSection entry %r' % (e[0],))
+    return tot
+
+
+def module_len(I, st, mod):
+    """byte length of the recorded wasm_encoder::Module: header (8) + per section 1 + LEB(size) + size; the size of a
+    non-code section is an uninterpreted symbol per section position"""
+    tot = z3.BitVecVal(8, 64)
+    for i, e in enumerate(mod.f[0].items):
+        if e[0] != 'section':
+            continue
+        sec = e[1]
+        if isinstance(sec, Struct) and sec.ty == 'enc:CodeSection':
+            n = sum(1 for x in sec.f[0].items if x[0] == 'raw')
+            size = leblen(z3.BitVecVal(n, 64)) + code_bytes(sec)
+        else:
+            size = z3.BitVec('section_size!%d' % i, 64)
+            if ('secsize', i) not in st.meta:
+                st.meta[('secsize', i)] = True
+                st.pc.append(z3.ULT(size, z3.BitVecVal(1 << 32, 64)))
+        tot = tot + 1 + leblen(size) + size
+    return tot
 
 
 def _featset(v):
